@@ -410,16 +410,31 @@ def r2_object_side(ctx, mi, pairs) -> None:
         par = _parent(c)
         if isinstance(par, ast.Assign) and len(par.targets) == 1 and isinstance(par.targets[0], ast.Name):
           objv = par.targets[0].id
+
+          def root_fields(chain, aliases):
+            """Fields of the constructed object that an access chain may be rooted in (through local aliases)."""
+            while isinstance(chain, (ast.Attribute, ast.Subscript, ast.Call)):
+              nxt = chain.value if isinstance(chain, (ast.Attribute, ast.Subscript)) else chain.func
+              if isinstance(nxt, ast.Name) and nxt.id == objv and isinstance(chain, ast.Attribute):
+                return {chain.attr.lstrip('_')}
+              if isinstance(nxt, ast.Name) and nxt.id in aliases:
+                return set(aliases[nxt.id])
+              chain = nxt
+            return set()
+          # u = x.f / u = x.f[k] (on any branch): stores through u fill field f
+          aliases: Dict[str, Set[str]] = {}
+          for _ in range(3):
+            for x in ast.walk(rf.node):
+              if isinstance(x, ast.Assign) and len(x.targets) == 1 and isinstance(x.targets[0], ast.Name) \
+                  and not isinstance(x.value, ast.Name):
+                fs_ = root_fields(x.value, aliases)
+                if fs_:
+                  aliases.setdefault(x.targets[0].id, set()).update(fs_)
           for x in ast.walk(rf.node):
             if isinstance(x, ast.Assign):
               for t in x.targets:
                 if not isinstance(t, ast.Name):
-                  chain = t
-                  while isinstance(chain, (ast.Attribute, ast.Subscript, ast.Call)):
-                    nxt = chain.value if isinstance(chain, (ast.Attribute, ast.Subscript)) else chain.func
-                    if isinstance(nxt, ast.Name) and nxt.id == objv and isinstance(chain, ast.Attribute):
-                      ctor_kw.add(chain.attr.lstrip('_'))
-                    chain = nxt
+                  ctor_kw |= root_fields(t, aliases)
     if ctor_kw is None:
       continue
     allf = set(pub)
